@@ -33,6 +33,9 @@ TClose ==
   /\ IsEv("Close") /\ Close
   /\ cycle' = Ev.cycle
   /\ (K = 1 => calStart' = Ev.calStart)
+  \* real calibration indices of one ancilla, per prepared state s = 0, 1, 2: heralded slot (if H = 1) then projected slot
+  /\ (K = 1 => /\ Ev.calHer  = [s \in 1..3 |-> IF H = 1 THEN <<Ev.calStart + (s - 1) * (H + 1)>> ELSE <<>>]
+               /\ Ev.calProj = [s \in 1..3 |-> <<Ev.calStart + (s - 1) * (H + 1) + H>>])
 TNextRep ==
   /\ IsEv("NextRep") /\ NextRep
   /\ base' = Ev.base
